@@ -128,7 +128,13 @@ pub fn tags() -> Vec<Vec<MId>> {
 
 /// a sorted pool of 3..=8 distinct versions over at most 5 tuples
 pub fn vpool() -> BoxedStrategy<Vec<MVersion>> {
-    (0u64..3, 0u64..3, 0u64..3, 0u64..4, proptest::collection::vec((0usize..5, 0usize..5), 3..=8))
+    // mostly tiny components (adjacency and ties are the point); one component in ten comes from the
+    // whole number line (log-uniform bit lengths, powers of two and neighbours, values at the limit)
+    let comp = || {
+        let cap = max_int() - 2;
+        prop_oneof![9 => (0u64..3).boxed(), 1 => crate::gen::version::field().prop_map(move |x| x.min(cap)).boxed()]
+    };
+    (comp(), comp(), comp(), 0u64..4, proptest::collection::vec((0usize..5, 0usize..5), 3..=8))
         .prop_map(|(a, b, c, d, picks)| {
             let tuples = [(a, b, c), (a, b, c + 1), (a, b + 1, 0), (a + 1, 0, 0), (a + 1 + d, d, 0)];
             let tg = tags();
